@@ -2,6 +2,7 @@ import ErgoVerif.Lemmas.EdfTop
 import ErgoVerif.Lemmas.EdfSafe
 import ErgoVerif.Lemmas.EdfReenc2
 import ErgoVerif.Lemmas.EdfDecGood3
+import ErgoVerif.Lemmas.EdfFuel
 import ErgoVerif.Model.EdfAlloc
 import ErgoVerif.Props.C11
 /-!
@@ -35,6 +36,25 @@ theorem C16_api_total (o : Opts) (fuel : Nat) (bs : Bytes) :
   | ok x => exact Or.inr ⟨x, rfl⟩
   | err => exact Or.inl rfl
   | panic => exact absurd h (C16_api_no_panic o fuel bs)
+
+/-- Termination: the fuel of the model only bounds the nesting depth. Once the decoder has answered with a value or a
+    panic, more fuel never changes the answer (only `err` can be an artefact of too little fuel; the driver runs with
+    fuel = input length + registry depth, and the correspondence harness would see such an artefact as a disagreement). -/
+theorem C16_fuel_stable (o : Opts) (f g : Nat) (h : f ≤ g) (bs : Bytes) :
+    decodeRaw o f bs = .err ∨ decodeRaw o g bs = decodeRaw o f bs := by
+  unfold decodeRaw
+  cases hg : getDecoder o true bs with
+  | err => left; rfl
+  | panic => right; rfl
+  | ok p =>
+    obtain ⟨ot, r, dt⟩ := p
+    cases ot with
+    | none => right; rfl
+    | some t =>
+      simp only
+      rcases dec_mono o f g h dt t r with h1 | h1
+      · left; simp [h1]
+      · right; rw [h1]
 
 -- ------------------------------------------------------------------------------------------------
 -- panics of the raw decoder
